@@ -78,7 +78,7 @@ def run(ctx: Check, tree: Tree) -> None:
                     None if ok else repr(got)[:200])
 
     # ---- ComplexSqrt
-    check_complex_sqrt(ctx, tree, te)
+    ctx.section(check_complex_sqrt, ctx, tree, te)
 
     # ---- (d) Chew-Mandelstam based variants
     cm = tree.func(f"{PH}::chew_mandelstam_s_wave")
@@ -170,7 +170,7 @@ def check_complex_sqrt(ctx: Check, tree: Tree, te: TermEval) -> None:
         for v in ret.value.values:
             parts.append(str(v.value) if isinstance(v, ast.Constant) else "X")
     text = "".join(parts).replace(" ", "")
-    m = re.fullmatch(r"\(*1j\*sqrt\(-X\)\)*ifisinstance\(X,\((?:float,int|int,float)\)\)and\(X<0\)else\(*csqrt\(X\)\)*", text)
+    m = re.fullmatch(r"\(*1j\*sqrt\(-\(?X\)?\)+ifisinstance\(X,\((?:float,int|int,float)\)\)and\(X<0\)else\(*csqrt\(X\)\)*", text)
     imports = [unparse(n) for n in walk_function(pyc.node) if isinstance(n, ast.Call) and "module_imports" in unparse(n)]
     ok = bool(m) and any("sqrt as csqrt" in i and "cmath" in i for i in imports)
     ctx.verdict(ok, "R-TERM", f"{cls.qual}._pythoncode::two-branch", tree.loc(pyc.node),
